@@ -29,6 +29,8 @@ def run_checks(repo, d, ids, tier="quick", seed="1"):
     res = {}
     for pid in ids:
         env = dict(os.environ, VERIF_REPO=repo, VERIF_OUT=os.path.join(d, "out"), VERIF_SEED=seed)
+        if os.environ.get("AUDIT_FULL") is None:
+            env["VERIF_AUDIT_FAST"] = "1"
         t0 = time.time()
         p = subprocess.run([os.path.join(HERE, "check"), pid, tier], env=env, capture_output=True, text=True)
         viol = [l for l in p.stdout.splitlines() if l.startswith("VIOLATION") or l.startswith("  violation")]
